@@ -25,7 +25,7 @@ TInitEv == Is("init") /\ Ev.s < Ev.e /\ Ev.e <= N /\ InitRange(Ev.s, Ev.e) /\ Go
 TUpdate == Is("update") /\ Update(Ev.p) /\ Go
 TReset == Is("reset") /\ Reset /\ Go
 TRReset == Is("rreset") /\ ReverseReset /\ Go
-TValue == Is("q_value") /\ start < end /\ Q("NodeValueIsWeightedMean", NodeValue, TRUE)
+TValue == Is("q_value") /\ start < end /\ Q("NodeValueIsWeightedMean", NodeValue, SW(start, end) > 0)
 TImp == Is("q_impurity") /\ start < end /\ Q("ImpurityIsMSE", NodeImpurity, Claimed(start, end))
 TLeft == Is("q_left") /\ start < end /\ Q("ChildrenImpurity", LeftImpurity, Claimed(start, pos))
 TRight == Is("q_right") /\ start < end /\ Q("ChildrenImpurity", RightImpurity, Claimed(pos, end))
